@@ -277,6 +277,7 @@ func partB(e *engine) {
 	var all []mismatch
 	var loads, triples, pairs int64
 	perField := map[string]int64{}
+	failing := map[string]bool{} // fields whose single comparison already failed: not repeated in pairs
 	for _, x := range contextsB() {
 		for _, f := range fields {
 			ms, n := tryDefault(e, f, x)
@@ -286,6 +287,9 @@ func partB(e *engine) {
 			}
 			loads += n
 			all = append(all, ms...)
+			if len(ms) > 0 {
+				failing[f.name] = true
+			}
 			c.Distinct("B|"+f.name+"|"+x.String(), n > 0)
 		}
 	}
@@ -295,6 +299,9 @@ func partB(e *engine) {
 		}
 		for i := range fields {
 			for k := i + 1; k < len(fields); k++ {
+				if failing[fields[i].name] || failing[fields[k].name] {
+					continue
+				}
 				ms, n := tryDefaultPair(e, fields[i], fields[k], x)
 				if n > 0 {
 					pairs++
